@@ -54,8 +54,20 @@ def check(tier, seed, replay=None):
             p = os.path.join(d, "gen%d.bop" % i)
             open(p, "w").write(frontgen.render(items, frontgen.Layout(rng)))
             files.append(p)
+        # schemas with SEVERAL semantic errors: which one Validate reports must not change from call to call
+        multi = ["message M { 1 -> int32 a; 2 -> int32 a; 3 -> int32 b; 4 -> int32 b; 5 -> int32 c; 6 -> int32 c; }\n",
+                 "message M { 1 -> No1 a; 2 -> No2 b; 3 -> No3 c; 4 -> No4 d; 5 -> No5 e; 6 -> No6 f; }\n",
+                 "union U { 1 -> struct A { } 2 -> struct A { } 3 -> struct B { } 4 -> struct B { } 5 -> struct C { } 6 -> struct C { } }\n",
+                 "struct S1 { S2 a; }\nstruct S2 { S3 a; }\nstruct S3 { S4 a; }\nstruct S4 { S5 a; }\nstruct S5 { S6 a; }\nstruct S6 { S1 a; }\n",
+                 "struct A { B b; }\nstruct B { A a; }\nstruct C { D d; }\nstruct D { C c; }\nstruct E { F f; }\nstruct F { E e; }\n",
+                 "union U { 1 -> struct A { int32 x; int32 x; } 2 -> struct B { int32 y; int32 y; } 3 -> message C { 1 -> int32 z; 2 -> int32 z; 3 -> int32 w; 4 -> int32 w; } }\n",
+                 "struct T { int32 a; }\nunion U { 1 -> struct T { } 2 -> struct int32 { } 3 -> struct U { } }\nunion V { 1 -> struct T { } 2 -> struct Q { } }\nunion W { 1 -> struct Q { } }\n"]
+        for i, txt in enumerate(multi):
+            p = os.path.join(d, "multi%d.bop" % i)
+            open(p, "w").write(txt)
+            files.append(p)
         for p in files:
-            ops.append("PURE %s %d" % (p, 12))
+            ops.append("PURE %s %d" % (p, 12 if "multi" not in os.path.basename(p) else 40))
             metas.append(("repeat", os.path.relpath(p, REPO) if p.startswith(REPO) else os.path.basename(p)))
         res = run_lines("GORACE=halt_on_error=1 exec %s" % gx, ops, timeout=1500)
         race_log = ""
